@@ -57,6 +57,7 @@ func TestC09(t *testing.T) {
 		noteCase("C09", "lock", p.JSON())
 		res := Guard(func() Result { return RunC09c(p) })
 		rec.Case(p.JSON(), harness.HashBytes(p.JSON()), res.Counters, res.Nontrivial, res.V)
+		abortOnHang(rec, res.V)
 		if res.V != nil {
 			rt.Fatalf("C09 violated: %v", res.V)
 		}
@@ -69,6 +70,7 @@ func TestC09(t *testing.T) {
 		noteCase("C09", "stress", p.JSON())
 		res := Guard(func() Result { return RunC09b(p) })
 		rec.Case(p.JSON(), harness.HashBytes(p.JSON()), res.Counters, res.Nontrivial, res.V)
+		abortOnHang(rec, res.V)
 		if res.V != nil {
 			rt.Fatalf("C09 violated: %v", res.V)
 		}
